@@ -2537,12 +2537,16 @@ _cdata_getslicearg(CDataObject *cd, PySliceObject *slice, Py_ssize_t bounds[])
     if (start == -1 && PyErr_Occurred()) {
         if (slice->start == Py_None)
             PyErr_SetString(PyExc_IndexError, "slice start must be specified");
+        else if (PyErr_ExceptionMatches(PyExc_OverflowError))
+            PyErr_SetString(PyExc_IndexError, "slice start out of range");
         return NULL;
     }
     stop = PyLong_AsSsize_t(slice->stop);
     if (stop == -1 && PyErr_Occurred()) {
         if (slice->stop == Py_None)
             PyErr_SetString(PyExc_IndexError, "slice stop must be specified");
+        else if (PyErr_ExceptionMatches(PyExc_OverflowError))
+            PyErr_SetString(PyExc_IndexError, "slice stop out of range");
         return NULL;
     }
     if (slice->step != Py_None) {
